@@ -3,3 +3,4 @@ import EdxmlModel.Basic.Bytes
 import EdxmlModel.Hash.Sha
 import EdxmlModel.Event.Event
 import EdxmlModel.Event.Hash
+import EdxmlModel.Event.Merge
